@@ -1,13 +1,25 @@
 #!/bin/bash
-# tools/try_mutant.sh <patch.diff> <ID> [<ID>...] : apply a seeded change to /repo, run the quick checks, undo it.
-patch="$1"; shift
+# tools/try_mutant.sh <mutant-name> <ID> [<ID>...] : apply seeded/<name>/patch.diff to /repo, run the quick checks, undo it.
+# The first shrunk counter-example of each check is kept as regression replay replays/<ID>/seeded-<name>.json
+# (only if it holds on the unchanged tree).
+name="$1"; shift
+patch=/verif/seeded/$name/patch.diff
 cd /repo || exit 2
 if [ -n "$(git status --porcelain --untracked-files=no)" ]; then echo "/repo not clean"; exit 2; fi
 git apply "$patch" || { echo "patch does not apply"; exit 2; }
+rm -rf /dev/shm/mutant-found
 for id in "$@"; do
-  echo "=== $id with $(basename $(dirname $patch))"
-  ( cd /verif && VERIF_FOUND_DIR=/dev/shm/mutant-found ./run.sh $id quick 2>&1 | tail -6 ); echo "exit=$?"
+  echo "=== $id with $name"
+  ( cd /verif && VERIF_FOUND_DIR=/dev/shm/mutant-found ./run.sh $id quick > /dev/shm/mutant-run.log 2>&1; echo "exit=$?"; tail -4 /dev/shm/mutant-run.log | cut -c1-400 )
 done
 git -C /repo checkout -- .
-cd /verif && cargo build --release --offline --manifest-path harness/Cargo.toml >/dev/null 2>&1
-git -C /verif status --short replays | head
+cd /verif/harness && cargo build --release --offline >/dev/null 2>&1
+cd /verif
+for id in "$@"; do
+  f=$(ls /dev/shm/mutant-found/$id/*.json 2>/dev/null | grep -v abort | head -1)
+  [ -z "$f" ] && f=$(ls /dev/shm/mutant-found/$id/*.json 2>/dev/null | head -1)
+  if [ -n "$f" ]; then
+    mkdir -p replays/$id; cp "$f" replays/$id/seeded-$name.json
+    if ./target/release/vcheck replay $id replays/$id/seeded-$name.json >/dev/null 2>&1; then echo "kept regression replay replays/$id/seeded-$name.json"; else echo "replay fails on clean tree (schedule-dependent?) - dropped"; rm -f replays/$id/seeded-$name.json; fi
+  fi
+done
